@@ -377,6 +377,10 @@ impl<'a> Gen<'a> {
         let mut attached: Vec<usize> = vec![];
         let mut ai = 0;
         let mut i = 0;
+        // `faults-*` parts: at most one lane-side fault per conversation (it ends the link), in about
+        // three conversations of eight, not before the first third.
+        let mut lane_fault: Option<(usize, u64)> =
+            if cfg.faults && self.rng.chance(3, 8) { Some((self.rng.range(len as u64 / 3, len as u64) as usize, self.rng.below(8))) } else { None };
         while i < len {
             while ai < attach_at.len() && attach_at[ai].0 <= i {
                 let c = attach_at[ai].1;
@@ -463,18 +467,23 @@ impl<'a> Gen<'a> {
                     ai += 1;
                     continue;
                 }
-                if self.rng.chance(1, 7) {
-                    let before = steps.len();
-                    match self.rng.below(12) {
-                        0..=6 => {
-                            let adv = self.advance(cfg);
-                            steps.push(adv);
+                if let Some((at, what)) = lane_fault {
+                    if i >= at && !attached.is_empty() {
+                        lane_fault = None;
+                        let before = steps.len();
+                        match what {
+                            0..=4 => self.output_failure_pattern(cfg, &attached, &mut steps),
+                            5 => steps.push(Step::LaneDropReader),
+                            _ => steps.push(Step::LaneCloseWriter),
                         }
-                        7..=9 if !attached.is_empty() => self.output_failure_pattern(cfg, &attached, &mut steps),
-                        10 => steps.push(Step::LaneDropReader),
-                        _ => steps.push(Step::LaneCloseWriter),
+                        i += steps.len() - before;
+                        continue;
                     }
-                    i += steps.len() - before;
+                }
+                if self.rng.chance(1, 12) {
+                    let adv = self.advance(cfg);
+                    steps.push(adv);
+                    i += 1;
                     continue;
                 }
             }
